@@ -54,6 +54,11 @@ impl SyncVecRd {
     {
         let (lock, cvar) = &*self.decoded;
         let decoded = cvar.wait_while(lock.lock().unwrap(), function).unwrap();
+        #[cfg(jubako_verif)]
+        crate::verif::point(crate::verif::Event::WaitReturn {
+            buf: self.buffer as usize,
+            seen: *decoded,
+        });
         *decoded
     }
 
@@ -71,6 +76,11 @@ impl SyncVecRd {
     #[inline]
     fn slice(&self) -> &[u8] {
         let size = self.current_size();
+        #[cfg(jubako_verif)]
+        crate::verif::point(crate::verif::Event::Slice {
+            buf: self.buffer as usize,
+            len: size,
+        });
         unsafe { std::slice::from_raw_parts(self.buffer, size) }
     }
 }
@@ -79,6 +89,11 @@ fn create_sync_vec(size: usize) -> (SyncVecWr, SyncVecRd) {
     let buffer = Arc::new(Vec::with_capacity(size));
     let decoded = Arc::new((Mutex::new(0), Condvar::new()));
     let buffer_ptr = buffer.as_ptr();
+    #[cfg(jubako_verif)]
+    crate::verif::point(crate::verif::Event::BufCreated {
+        buf: buffer_ptr as usize,
+        size,
+    });
     let rd = SyncVecRd {
         _arc: Arc::clone(&buffer),
         buffer: buffer_ptr,
@@ -108,21 +123,46 @@ fn decode_to_end<T: Read + Send>(
 ) -> std::io::Result<()> {
     let total_size = buffer.total_size;
     let mut uncompressed = 0;
+    #[cfg(jubako_verif)]
+    let mut verif_done = crate::verif::DecodeDoneGuard {
+        buf: buffer.data.as_ptr() as usize,
+        ok: false,
+    };
     //println!("Decompressing to {total_size}");
     while uncompressed < total_size {
         let size = std::cmp::min(total_size - uncompressed, chunk_size);
         //  println!("decompress {size}");
+        #[cfg(jubako_verif)]
+        let verif_from = uncompressed;
 
         uncompressed += decoder
             .by_ref()
             .take(size as u64)
             .read_to_end(&mut buffer.data)?;
+        #[cfg(jubako_verif)]
+        crate::verif::point(crate::verif::Event::ChunkWritten {
+            buf: verif_done.buf,
+            from: verif_from,
+            to: uncompressed,
+            len: buffer.data.len(),
+            cap: buffer.data.capacity(),
+            ptr: buffer.data.as_ptr() as usize,
+        });
         let (lock, cvar) = &*buffer.decoded;
         let mut decoded = lock.lock().unwrap();
         *decoded = uncompressed;
+        #[cfg(jubako_verif)]
+        crate::verif::point(crate::verif::Event::Published {
+            buf: verif_done.buf,
+            len: uncompressed,
+        });
         cvar.notify_all();
     }
     //println!("Decompress done");
+    #[cfg(jubako_verif)]
+    {
+        verif_done.ok = true;
+    }
     Ok(())
 }
 
@@ -146,7 +186,19 @@ impl SeekableDecoder {
 
     #[inline]
     pub fn decode_to(&self, end: usize) {
+        #[cfg(jubako_verif)]
+        crate::verif::point(crate::verif::Event::WaitBegin {
+            buf: self.buffer.buffer as usize,
+            end,
+            seen: self.buffer.current_size(),
+        });
         self.buffer.wait_while(|d: &mut usize| *d < end);
+        #[cfg(jubako_verif)]
+        crate::verif::point(crate::verif::Event::WaitEnd {
+            buf: self.buffer.buffer as usize,
+            end,
+            seen: self.buffer.current_size(),
+        });
     }
 
     #[inline]
